@@ -525,7 +525,7 @@ def _strhash(case):
 SUBS = [
     Sub("hashseed", check_hashseed, custom=hashseed_search, workers_quick=2, workers_thorough=16,
         budget_quick=50, budget_thorough=560),
-    Sub("order", check_order, strategy=strat_order, quick=600, thorough=12000, workers_quick=2,
+    Sub("order", check_order, strategy=strat_order, quick=1200, thorough=12000, workers_quick=3,
         workers_thorough=16, budget_quick=30, budget_thorough=400),
 ]
 
